@@ -11,7 +11,7 @@ from vp.props.c02 import quantize_ref
 
 PROP_ID = 'C14'
 LEVEL = 'exploration'
-BUDGET = {'quick': 2000, 'thorough': 30000}
+BUDGET = {'quick': 3500, 'thorough': 30000}
 RULE = ('Hypothesis draws an INPUT recording that is written by an independent GUPPI writer (not by setigen): 8/4 bit, '
         '1-2 pols, 1-3 antennas, DIRECTIO absent/0/1 incl. 512-aligned headers, 1-3 files with a partial last file, '
         'seeded integer content with distinct statistics per antenna/polarisation; and a synthetic antenna carrying a '
